@@ -784,7 +784,7 @@ static bool compile_builtin_call(CG *cg, ASTNode *node) {
     if (strcmp(name, "array_slice") == 0 && argc == 3) {
         compile_expr(cg, args[0]); /* array */
         compile_expr(cg, args[1]); /* start */
-        compile_expr(cg, args[2]); /* end */
+        compile_expr(cg, args[2]); /* length */
         emit_op(cg, OP_ARR_SLICE);
         return true;
     }
